@@ -1251,6 +1251,27 @@ class Verifier(Exec):
         k = const('k!', INT)
         if self.opts.get('ground'):
             return self.ground_append(st, s, t, n, fits, e, name, h)
+        if t.len.is_int() and t.len.val == 1:
+            # single-element append as one store at a conditional position: in place when it fits, else into a
+            # fresh array whose (never observed) contents are assumed to be the copy of the old elements
+            na = self.new_addr(st, 'app')
+            newcap = self.ctx.fresh('appcap', INT)
+            self.ctx.assume(and_(le(n, newcap), le(newcap, I(MAXLEN))))
+            if self.writable is not None or any(w is not None for w in self.loop_writes):
+                st2 = st.copy()
+                st2.pc = and_(st.pc, fits)
+                self.frame_check_elem(st2, e, s.arr, add(s.off, s.len))
+            self.ctx.assume(forall([k], implies(and_(le(ZERO, k), lt(k, s.len)), eq(select(select(h, na), k), select(select(h, s.arr), add(s.off, k)))), [select(select(h, na), k)]))
+            val_ = select(select(h, t.arr), t.off)
+            darr = self.ctx.name('app.arr', ite(fits, s.arr, na))
+            doff = self.ctx.name('app.off', ite(fits, s.off, ZERO))
+            st.heap[name] = store(h, darr, store(select(h, darr), add(doff, s.len), val_))
+            if self.track_init:
+                iname = 'INIT:' + self.elem_key(e)
+                ih = self.heap_get(st, iname, arr(arr(BOOL)))
+                self.ctx.assume(forall([k], implies(and_(le(ZERO, k), lt(k, s.len)), eq(select(select(ih, na), k), select(select(ih, s.arr), add(s.off, k)))), [select(select(ih, na), k)]))
+                st.heap[iname] = store(ih, darr, store(select(ih, darr), add(doff, s.len), TRUE))
+            return SliceV(darr, doff, n, self.ctx.name('app.cap', ite(fits, s.cap, newcap)), e)
         # in-place branch: elements [s.off+s.len, s.off+n) of s.arr overwritten with t's elements (memmove semantics)
         na = self.new_addr(st, 'app')
         src_inner = select(h, t.arr)
